@@ -261,8 +261,12 @@ func trunc(s string, n int) string {
 type Errs struct{ msgs []string }
 
 func (e *Errs) Addf(format string, a ...interface{}) {
-	if len(e.msgs) < 20 {
-		e.msgs = append(e.msgs, fmt.Sprintf(format, a...))
+	if len(e.msgs) < 12 {
+		m := fmt.Sprintf(format, a...)
+		if len(m) > 700 {
+			m = m[:700] + "…"
+		}
+		e.msgs = append(e.msgs, m)
 	}
 }
 
@@ -274,3 +278,38 @@ func (e *Errs) Err() error {
 }
 
 func (e *Errs) Failed() bool { return len(e.msgs) > 0 }
+
+// ---------------------------------------------------------------- known findings
+
+type knownFile struct {
+	Open []struct {
+		Property string `json:"property"`
+		ID       string `json:"id"`
+	} `json:"open"`
+}
+
+var knownLoaded bool
+var knownOpen map[string]bool
+
+// KnownOpen reports whether finding id of property is listed as an open
+// (recorded, not repaired) finding in known_findings.json. Only then may a
+// check exclude that class of cases from judgement.
+func KnownOpen(property, id string) bool {
+	if !knownLoaded {
+		knownLoaded = true
+		knownOpen = map[string]bool{}
+		path := os.Getenv("VERIF_KNOWN")
+		if path == "" {
+			path = "/verif/known_findings.json"
+		}
+		if b, err := os.ReadFile(path); err == nil {
+			var k knownFile
+			if json.Unmarshal(b, &k) == nil {
+				for _, o := range k.Open {
+					knownOpen[o.Property+"/"+o.ID] = true
+				}
+			}
+		}
+	}
+	return knownOpen[property+"/"+id]
+}
